@@ -20,6 +20,8 @@ mod join_handle;
 mod queue;
 mod task;
 mod util;
+#[cfg(compio_verif)]
+pub mod verif;
 mod waker;
 
 use compio_log::{instrument, trace};
